@@ -6,7 +6,7 @@ from vlib.sexp import Q
 
 PROP = "C06"
 LEAN_MODULES = ["ShootVerif.Props.C06"]
-USES_FACTS = False
+USES_FACTS = True
 DRIVER = "shootmodel_rest"
 
 MANIFEST = dict(
@@ -385,7 +385,7 @@ def run(ctx, obl):
             for f in st["fields"]:
                 if f.get("alias"):
                     docs.append("alias=%s" % f["alias"])
-    restleg.run(ctx, res, ctx.n(8000, 80000), extra=docs)
+    restleg.run(ctx, res, ctx.n(5000, 80000), extra=docs)
     res.extra["calls_observed"] = sum(len(c["calls"]) for c in cases)
     res.rule = ("seeded random RestClient interfaces (1-4 methods; five verbs in four spellings; quoted/unquoted paths with 0-3 placeholders, literal "
                 "segments with punctuation, optional `;` tails; alias directives for path and query parameters; scalar and pointer-to-scalar parameters "
